@@ -19,7 +19,7 @@ func parseStrUint(buf []byte) (u uint) {
 
 // trimNULBuffer removes trailing bytes from Buffer
 func trimNULBuffer(buf []byte) []byte {
-	for i := len(buf) - 1; i > 0; i-- {
+	for i := len(buf) - 1; i >= 0; i-- {
 		if buf[i] == 0 || buf[i] == ' ' || buf[i] == '\n' {
 			continue
 		}
